@@ -138,7 +138,7 @@ def handle (case obs : List String) : String × String :=
           -- walk headers only (an oversized declared length need not be followed by a payload):
           -- the frames before the first oversized / incomplete one, and whether one is oversized
           let limit := c.cfg.maxSize.getD (4 * 1024 * 1024)
-          let (frs, over) := walk limit ((dataOf c.evs).length + 1) (dataOf c.evs)
+          let (frs, over) := walk limit ((grpcData c).length + 1) (grpcData c)
           let within := frs.filterMap (payloadMsg c.tab)
           let allValid := within.length == frs.length
               && frs.all (fun fp => fp.1 == 0 || c.cfg.enc.isSome)
